@@ -9,7 +9,10 @@ R3  codec agreement of each serializer/deserializer pair
 R4  response render cache (writers reset it; the three render_body siblings
     render only when it is unset; the "render the media" step may live in an
     argument-less method of the same class called on `self` - _RenderHelper -
-    that returns or itself stores the rendition)
+    that returns the rendition, itself stores it, or stores it AND returns what
+    the cache holds (k2-c12-2: `data = self._render_media()`; a returned local
+    read from the cache before the store is a violation); the cache test may
+    look at a local bound to the cache read with no write in between)
 R5  handler resolution in one case form (C11 R9)
 R6  the form serializer's quoting function is injective on text
 R7  the form reader answers "malformed" only for a failure of its parsing
@@ -19,7 +22,8 @@ R7  the form reader answers "malformed" only for a failure of its parsing
 R8  a (de)serializer slot without a working class-level fallback is bound on
     every constructor path
 R9  the ASGI sync shortcut slots are bound only under an exact-type test of self
-    (or a test covering every public method they replace)
+    (or a test covering every public method they replace); the consumers are
+    looked through same-class helpers that hold the `_resolve(...)` unpacking
 R10 deserialize_async parses the whole body once, like its sync sibling
 
 Roles come from contract names (`_media`, `_media_error`, `_media_rendered`,
@@ -752,9 +756,29 @@ def _is_ser_call(c, roles) -> bool:
 
 def _unset_edges(p, f: Func, cfg, r: str):
     """branch edges of `f` on which `<r>._media_rendered` is known to be the unset sentinel"""
-    def cached(test, truth):
+    writers = [n.id for n in cfg.live_nodes() if n.kind == 'stmt' and _writes(n.ast, '_media_rendered')]
+
+    def is_cache(e, tid) -> bool:
+        """`<r>._media_rendered`, or a local bound once to that read with no write of the cache between the binding and
+        the test (the local then still is what the cache holds)"""
+        if _is_attr_of(e, r, '_media_rendered'):
+            return True
+        if isinstance(e, ast.Name) and e.id not in f.params():
+            binds = _assignments(f.node, e.id)
+            if binds and all(v is not None and _is_attr_of(strip_await(v), r, '_media_rendered') for _st, v in binds):
+                b_ids = [i for st, _v in binds for i in cfg.nodes_for(st)]
+                for b in b_ids:
+                    after = flow.reachable(cfg, [y for (y, l) in cfg.succ[b] if l != 'exc'], avoid_nodes=b_ids, edge_filter=flow.no_exc)
+                    stale = [w for w in writers if w in after]
+                    if stale and tid in flow.reachable(cfg, [y for w in stale for (y, l) in cfg.succ[w] if l != 'exc'], avoid_nodes=b_ids,
+                                                       edge_filter=flow.no_exc):
+                        raise UnknownIdiom('%s: %s is tested after the cache it was read from may have been written' % (f.qual, e.id))
+                return True
+        return False
+
+    def cached(test, truth, tid):
         for a in [x for x in walk_self(test) if isinstance(x, ast.Compare) and len(x.ops) == 1 and isinstance(x.ops[0], (ast.Is, ast.IsNot))
-                  and _is_attr_of(x.left, r, '_media_rendered') and _is_unset(p, f, x.comparators[0])]:
+                  and _is_unset(p, f, x.comparators[0]) and is_cache(x.left, tid)]:
             v = implied(test, truth, lambda e, a=a: e is a)
             if v is not None:
                 return v if isinstance(a.ops[0], ast.IsNot) else (not v)
@@ -764,7 +788,7 @@ def _unset_edges(p, f: Func, cfg, r: str):
     for t in cfg.live_nodes():
         if t.kind == 'test':
             for (y, l) in cfg.succ[t.id]:
-                if l in ('T', 'F') and cached(t.ast, l == 'T') is False:
+                if l in ('T', 'F') and cached(t.ast, l == 'T', t.id) is False:
                     out.append((t.id, y, l))
     return out
 
@@ -828,6 +852,48 @@ class _RenderHelper:
         if len(kinds) != 1:
             raise UnknownIdiom('%s: the renditions are partly returned, partly stored' % g.qual)
         self.kind = kinds.pop()
+        # third shape: the helper stores the rendition AND hands back what the cache holds (`return self._media_rendered`,
+        # or a local bound to that read only) on every normal path - its call is then a read of the cache
+        self.returns_cache = False
+        self.stale_local: Optional[str] = None
+        if self.kind == 'stores':
+            def reads_cache(e, depth=0):
+                e = strip_await(e) if e is not None else None
+                if _is_attr_of(e, sn, '_media_rendered'):
+                    return True
+                if isinstance(e, ast.Name) and depth < 3 and e.id not in g.params():
+                    binds = _assignments(g.node, e.id)
+                    if not (binds and all(v is not None and reads_cache(v, depth + 1) for _st, v in binds)):
+                        return False
+                    return True
+                return False
+            rets = [x for x in cfg.live_nodes() if x.kind == 'stmt' and isinstance(x.ast, ast.Return)]
+            valued = [x for x in rets if x.ast.value is not None and not (isinstance(x.ast.value, ast.Constant) and x.ast.value.value is None)]
+            if valued:
+                if not all(reads_cache(x.ast.value) for x in valued):
+                    bad = [x for x in valued if not reads_cache(x.ast.value)][0]
+                    raise UnknownIdiom('%s: stores the rendition and returns something else: %s' % (g.qual, short(bad.ast, 60)))
+                # a returned local is what the cache holds only when it was read AFTER the store: binding -> store ->
+                # return with no re-binding in between hands back the value from before (the unset sentinel)
+                for x in valued:
+                    v = strip_await(x.ast.value)
+                    if not isinstance(v, ast.Name):
+                        continue
+                    binds = _assignments(g.node, v.id)
+                    if any(isinstance(bv, ast.Name) for _st, bv in binds):
+                        raise UnknownIdiom('%s: %s is an alias of an alias of the cache' % (g.qual, v.id))
+                    b_ids = [i for st, _v in binds for i in cfg.nodes_for(st)]
+                    for b in b_ids:
+                        succ_b = [y for (y, l) in cfg.succ[b] if l != 'exc']
+                        after_b = flow.reachable(cfg, succ_b, avoid_nodes=b_ids, edge_filter=flow.no_exc)
+                        for m in self.sers:
+                            if m.id in after_b and x.id in flow.reachable(cfg, [y for (y, l) in cfg.succ[m.id] if l != 'exc'],
+                                                                          avoid_nodes=b_ids, edge_filter=flow.no_exc):
+                                self.stale_local = v.id
+                self.returns_cache = flow.find_path(cfg, [cfg.entry], [cfg.exit], avoid_nodes=[x.id for x in valued],
+                                                    edge_filter=flow.no_exc) is None
+                if not self.returns_cache:
+                    raise UnknownIdiom('%s: returns the cached rendition on some normal paths only' % g.qual)
         if self.kind == 'returns':
             for x in cfg.live_nodes():
                 if x.kind == 'stmt' and isinstance(x.ast, ast.Return) and id(x.ast) not in self.rendition_returns:
@@ -1005,6 +1071,23 @@ def r4_render_cache(run):
                 readers += [x.id for x in cfg.live_nodes() if x.id != n.id and x.id not in store_ids and x.kind == 'stmt'
                             and isinstance(x.ast, (ast.Assign, ast.AnnAssign, ast.Return))
                             and isinstance(getattr(x.ast, 'value', None), ast.Name) and x.ast.value.id == via_local[0]]
+            if hlp is not None and hlp.kind == 'stores' and hlp.returns_cache:
+                # the helper hands back what the cache holds: a statement that takes the value of the call reads the cache
+                hcall = [c for c in n.calls() if id(c) in helpers][0]
+                if isinstance(n.ast, (ast.Assign, ast.AnnAssign, ast.Return)) and strip_await(getattr(n.ast, 'value', None)) is hcall:
+                    if hlp.stale_local is not None:
+                        run.fail('%s: the body is taken from the rendered-media cache' % tag, f, n.ast, where=where,
+                                 witness=['%s returns the local %s, read from the cache BEFORE the rendition is stored: on the rendering '
+                                          'path it still is the unset sentinel' % (hlp.g.qual, hlp.stale_local)],
+                                 runtime_witness='the first render_body() of a media response answers the _UNSET sentinel instead of the bytes')
+                        continue
+                    run.ok('%s: the body is taken from the rendered-media cache (%s returns the cache it has just filled)' % (tag, hlp.g.name),
+                           where, n.ast)
+                    continue
+                if not isinstance(n.ast, ast.Expr):
+                    raise UnknownIdiom('%s: use of the value of %s' % (qual, short(n.ast, 80)))
+            elif hlp is not None and hlp.kind == 'stores' and not isinstance(n.ast, ast.Expr):
+                raise UnknownIdiom('%s: %s stores the rendition and returns nothing, yet its value is used: %s' % (qual, hlp.g.name, short(n.ast, 80)))
             succs = [y for (y, l) in cfg.succ[n.id] if l != 'exc']
             path = flow.find_path(cfg, succs, [cfg.exit], avoid_nodes=readers, edge_filter=flow.no_exc)
             run.check(path is None, '%s: the body is taken from the rendered-media cache' % tag, f, n.ast, where=where,
@@ -1790,8 +1873,22 @@ def _resolver_slot_positions(p) -> Dict[int, str]:
 def _replaced_coroutines(run, p, positions: Dict[int, str]) -> Dict[str, Set[str]]:
     """slot attribute -> names of the handler coroutines the ASGI consumers call when the slot is NOT set"""
     out: Dict[str, Set[str]] = {}
-    for q in SLOT_CONSUMERS:
-        f = p.func(q)
+
+    def bodies(f: Func, depth=0, seen=()):
+        """the consumer and the same-class helpers it calls on `self` (depth <= 2): the `_resolve(...)` unpacking and the
+        slot test may have moved into one of them"""
+        yield f
+        sn = (f.node.args.posonlyargs + f.node.args.args)[0].arg if (f.node.args.posonlyargs + f.node.args.args) else None
+        if depth >= 2 or sn is None or func_owner_class(f) is None:
+            return
+        for c in walk_self(f.node):
+            if isinstance(c, ast.Call) and isinstance(c.func, ast.Attribute) and isinstance(c.func.value, ast.Name) and c.func.value.id == sn:
+                g = p.callee(f, c)
+                if isinstance(g, Func) and g is not f and g.qual not in seen and func_owner_class(g) is not None \
+                        and p.is_subclass(func_owner_class(f).qual, func_owner_class(g).qual) is True:
+                    yield from bodies(g, depth + 1, seen + (f.qual, g.qual))
+
+    for q, f in [(q, f) for q in SLOT_CONSUMERS for f in bodies(p.func(q))]:
         run.use(f)
         for n in walk_self(f.node):
             if not (isinstance(n, ast.Assign) and len(n.targets) == 1 and isinstance(n.targets[0], ast.Tuple)
